@@ -62,6 +62,12 @@ impl Drop for StepGuard {
         STEP_ACTIVE.with(|c| c.set(self.0));
     }
 }
+/// Harness work done in the middle of a step (the panic hook inspecting the call stack): its
+/// allocations are nobody's but the harness's.
+#[inline]
+pub fn suspend_step() -> StepGuard {
+    StepGuard(STEP_ACTIVE.with(|c| c.replace(false)))
+}
 #[inline]
 pub fn enter_step() -> StepGuard {
     StepGuard(STEP_ACTIVE.with(|c| c.replace(true)))
@@ -295,6 +301,12 @@ pub fn install_hook() {
         }
         let loc = info.location().map(|l| format!("{}:{}", l.file(), l.line())).unwrap_or_default();
         let _h = enter_harness();
+        // A location inside the harness is not proof: a library function marked #[track_caller]
+        // reports its caller's location, i.e. the harness line that made the call. Ask the call
+        // stack (once per location) which code really raised the panic.
+        if raised_by_library(&loc) {
+            return;
+        }
         HARNESS_PANIC.with(|h| {
             let mut h = h.borrow_mut();
             if h.is_none() {
@@ -304,6 +316,45 @@ pub fn install_hook() {
     }));
     warm_up_panics();
 }
+thread_local! {
+    static LOC_CACHE: std::cell::RefCell<Vec<(String, bool)>> = const { std::cell::RefCell::new(Vec::new()) };
+}
+/// True when the innermost frame below the panic machinery that belongs to neither `std`, `core`
+/// nor `alloc` is a function of the library. Decided once per reported location.
+fn raised_by_library(loc: &str) -> bool {
+    if let Some(v) = LOC_CACHE.with(|c| c.borrow().iter().find(|(l, _)| l == loc).map(|(_, v)| *v)) {
+        return v;
+    }
+    let _quiet = suspend_step();
+    let bt = std::backtrace::Backtrace::force_capture().to_string();
+    let mut past_machinery = false;
+    let mut verdict = false;
+    for line in bt.lines() {
+        let t = line.trim_start();
+        // frame lines look like "12: path::to::function"; the "at file:line" lines are skipped
+        let sym = match t.split_once(": ") {
+            Some((n, rest)) if !n.is_empty() && n.bytes().all(|b| b.is_ascii_digit()) => rest.trim(),
+            _ => continue,
+        };
+        let machinery = sym.contains("panicking") || sym.contains("rust_begin_unwind") || sym.contains("rust_panic") || sym.contains("begin_panic");
+        if machinery {
+            past_machinery = true;
+            continue;
+        }
+        if !past_machinery {
+            continue; // the capture itself and this hook
+        }
+        let s = sym.trim_start_matches('<');
+        if s.starts_with("core::") || s.starts_with("std::") || s.starts_with("alloc::") {
+            continue;
+        }
+        verdict = s.starts_with("any_vec::");
+        break;
+    }
+    LOC_CACHE.with(|c| c.borrow_mut().push((loc.to_string(), verdict)));
+    verdict
+}
+
 /// The first panic of a process makes the panic runtime initialise itself lazily (it allocates
 /// before the thread counts as panicking). Raise and catch one panic of every flavour up front,
 /// outside every library scope, so that those one-time allocations are never attributed to a
